@@ -1,12 +1,355 @@
 import Nv.Model.C06
-/-! C06 — property theorems (placeholder while the pipeline is wired; see below). -/
+import Nv.Proofs.C06Hard
+import Nv.Proofs.C06Mono
+set_option linter.unusedSimpArgs false
+/-!
+C06 — property theorems for the id generators (model `Nv/Model/C06.lean`).
+
+Ids are compared as Go compares them: signed 64-bit integers (`.toInt`).
+"Whatever the clock does" = the theorems quantify over *every* list of `now` values (`coreRun`) resp.
+every list of clock readings (`hardRun`); no bound on the length of the run.
+The one hypothesis, as in DESIGN §5: the internal time stays inside the timestamp width of the
+layout (`InWidth` — a decidable predicate on the run); beyond it `<<` drops bits.
+-/
 namespace Nv.C06
 
-/-- the three node widths of the package (`Node256`, `Node512`, `Node1024`) -/
-def LayoutOk (nb : BitVec 8) : Prop := nb = 8#8 ∨ nb = 9#8 ∨ nb = 10#8
-instance : DecidablePred LayoutOk := fun nb => by unfold LayoutOk; exact inferInstance
+/-! ### HardNode: all `now` sequences -/
 
+/-- every state reached along the run keeps its time inside the timestamp width -/
+def InWidth (nb : BitVec 8) (nal : Bool) : HState → List (BitVec 64) → Prop
+  | _, [] => True
+  | st, now :: nows =>
+    (hardCore nb nal st now).1.time.toNat < 2 ^ tsWidth nb ∧ InWidth nb nal (hardCore nb nal st now).1 nows
+
+instance (nb : BitVec 8) (nal : Bool) : ∀ (st : HState) (nows : List (BitVec 64)), Decidable (InWidth nb nal st nows)
+  | _, [] => isTrue trivial
+  | st, now :: nows =>
+    have := instDecidableInWidth nb nal (hardCore nb nal st now).1 nows
+    by unfold InWidth; exact inferInstance
+
+/-- every id of a run is a non-negative int64 above the id the start state stands for, and carries the node -/
+theorem core_run_above {nb : BitVec 8} (hl : LayoutOk nb) (nal : Bool) :
+    ∀ (nows : List (BitVec 64)) (st : HState), WF nb st → InWidth nb nal st nows →
+      ∀ id ∈ coreRun nb nal st nows, stVal nb nal st < id.toNat ∧ id.toNat < 2 ^ 63 ∧ (idFields id nb nal).2.1 = st.node
+  | [], _, _, _ => by simp [coreRun]
+  | now :: nows, st, wf, hw => by
+    obtain ⟨hpost, hrest⟩ := hw
+    obtain ⟨wf', hid, hlt, hnode, _, _, hj⟩ := hardCore_step hl nal wf now hpost
+    intro id hmem
+    simp only [coreRun, List.mem_cons] at hmem
+    rcases hmem with rfl | hmem
+    · refine ⟨by rw [hid]; exact hlt, ?_, ?_⟩
+      · rw [hj]; exact join_lt hl nal wf'.time wf.node wf'.step
+      · rw [hj, idFields_join hl nal wf'.time wf.node wf'.step]
+    · have := core_run_above hl nal nows _ wf' hrest id hmem
+      exact ⟨Nat.lt_trans hlt this.1, this.2.1, by rw [this.2.2, hnode]⟩
+
+theorem toInt_lt_of_toNat_lt {a b : BitVec 64} (hb : b.toNat < 2 ^ 63) (h : a.toNat < b.toNat) : a.toInt < b.toInt := by
+  rw [toInt_eq_toNat_of_lt hb, toInt_eq_toNat_of_lt (by omega)]; omega
+
+/-- **strictly increasing**: every id is greater than every id returned before, for every sequence of
+    `now` values — stalls, steps back, far jumps, any number of calls inside one millisecond -/
+theorem hard_strictly_increasing {nb : BitVec 8} (hl : LayoutOk nb) (nal : Bool) :
+    ∀ (nows : List (BitVec 64)) (st : HState), WF nb st → InWidth nb nal st nows →
+      (coreRun nb nal st nows).Pairwise (fun a b => a.toInt < b.toInt)
+  | [], _, _, _ => by simp [coreRun]
+  | now :: nows, st, wf, hw => by
+    obtain ⟨hpost, hrest⟩ := hw
+    obtain ⟨wf', hid, _, _, _, _, _⟩ := hardCore_step hl nal wf now hpost
+    simp only [coreRun, List.pairwise_cons]
+    refine ⟨fun id' hmem => ?_, hard_strictly_increasing hl nal nows _ wf' hrest⟩
+    have := core_run_above hl nal nows _ wf' hrest id' hmem
+    exact toInt_lt_of_toNat_lt this.2.1 (by rw [hid]; exact this.1)
+
+/-- uniqueness is a corollary -/
+theorem hard_unique {nb : BitVec 8} (hl : LayoutOk nb) (nal : Bool) (nows : List (BitVec 64)) (st : HState)
+    (wf : WF nb st) (hw : InWidth nb nal st nows) : (coreRun nb nal st nows).Nodup := by
+  rw [List.nodup_iff_pairwise_ne]
+  refine (hard_strictly_increasing hl nal nows st wf hw).imp ?_
+  intro a b h e; rw [e] at h; exact Int.lt_irrefl _ h
+
+/-- the node field of every id is the configured node -/
+theorem hard_node_field {nb : BitVec 8} (hl : LayoutOk nb) (nal : Bool) (nows : List (BitVec 64)) (st : HState)
+    (wf : WF nb st) (hw : InWidth nb nal st nows) :
+    ∀ id ∈ coreRun nb nal st nows, (idFields id nb nal).2.1 = st.node :=
+  fun id h => (core_run_above hl nal nows st wf hw id h).2.2
+
+/-- concurrent callers: `Generate` is one critical section (facts `hardLocked`, `hardClockUnderLock`), so the
+    calls of all goroutines form one sequence in lock order; what one goroutine (or any subset of them) sees is a
+    sub-sequence of it — still strictly increasing, still duplicate-free -/
+theorem hard_concurrent_view {nb : BitVec 8} (hl : LayoutOk nb) (nal : Bool) (nows : List (BitVec 64)) (st : HState)
+    (wf : WF nb st) (hw : InWidth nb nal st nows) (view : List (BitVec 64))
+    (hsub : view.Sublist (coreRun nb nal st nows)) :
+    view.Pairwise (fun a b => a.toInt < b.toInt) ∧ view.Nodup :=
+  ⟨(hard_strictly_increasing hl nal nows st wf hw).sublist hsub, (hard_unique hl nal nows st wf hw).sublist hsub⟩
+
+/-- the timestamp an id carries is never below the value of `now` it was generated at -/
+theorem hard_ts_ge_now {nb : BitVec 8} (hl : LayoutOk nb) (nal : Bool) :
+    ∀ (nows : List (BitVec 64)) (st : HState), WF nb st → InWidth nb nal st nows →
+      ∀ p ∈ List.zip nows (coreRun nb nal st nows), p.1.toInt ≤ (idFields p.2 nb nal).1.toInt
+  | [], _, _, _ => by simp [coreRun]
+  | now :: nows, st, wf, hw => by
+    obtain ⟨hpost, hrest⟩ := hw
+    obtain ⟨wf', _, _, _, _, hge, hj⟩ := hardCore_step hl nal wf now hpost
+    intro p hmem
+    simp only [coreRun, List.zip_cons_cons, List.mem_cons] at hmem
+    rcases hmem with rfl | hmem
+    · simp only
+      rw [hj, idFields_join hl nal wf'.time wf.node wf'.step,
+        toInt_eq_toNat_of_lt (Nat.lt_of_lt_of_le wf'.time (Nat.le_trans (tsWidth_le hl) (by omega)))]
+      exact hge
+    · exact hard_ts_ge_now hl nal nows _ wf' hrest p hmem
+
+/-! ### HardNode under clock readings, and restart -/
+
+theorem hardGen_epoch (c : Cfg) (nb : BitVec 8) (nal : Bool) (st : HState) (t : Clock) :
+    (hardGen c nb nal st t).1.epoch = st.epoch := by
+  unfold hardGen hardCore; split
+  · rfl
+  · split <;> rfl
+
+/-- the run under clock readings is the core run under the `now` values the accessor computes -/
+theorem hardRun_eq_coreRun (c : Cfg) (nb : BitVec 8) (nal : Bool) :
+    ∀ (ts : List Clock) (st : HState),
+      hardRun c nb nal st ts = coreRun nb nal st (ts.map (fun t => hardNow c st.epoch (accWord c.nowAcc t)))
+  | [], _ => rfl
+  | t :: ts, st => by
+    simp only [hardRun, List.map_cons, coreRun]
+    rw [hardRun_eq_coreRun c nb nal ts, hardGen_epoch]
+    rfl
+
+/-- a clock reading and an epoch far from the int64 limits (|·| < 2^62 ms ≈ 146 million years) -/
+def ClockOk (epoch : BitVec 64) (t : Clock) : Prop :=
+  -2 ^ 62 ≤ t.ms ∧ t.ms < 2 ^ 62 ∧ -2 ^ 62 ≤ epoch.toInt ∧ epoch.toInt < 2 ^ 62
+instance (e : BitVec 64) (t : Clock) : Decidable (ClockOk e t) := by unfold ClockOk; exact inferInstance
+
+/-- with the millisecond accessor `now` is the true offset of the clock from the epoch -/
+theorem hardNow_milli {c : Cfg} (hc : Proved c) {epoch : BitVec 64} {t : Clock} (ht : ClockOk epoch t) :
+    (hardNow c epoch (accWord c.nowAcc t)).toInt = t.ms - epoch.toInt := by
+  obtain ⟨h1, h2, h3, h4⟩ := ht
+  unfold hardNow
+  rw [hc.1]
+  simp only [accMs, accWord]
+  rw [BitVec.toInt_sub, BitVec.toInt_ofInt_eq_self (by omega) (by omega) (by omega)]
+  apply Int.bmod_eq_of_le <;> omega
+
+/-- **timestamp ≥ clock**: for the repaired accessor, every id carries a timestamp (relative to the epoch) that
+    is not earlier than the clock reading it was generated at -/
+theorem hard_ts_ge_clock {c : Cfg} (hc : Proved c) {nb : BitVec 8} (hl : LayoutOk nb) (nal : Bool)
+    (ts : List Clock) (st : HState) (wf : WF nb st) (hok : ∀ t ∈ ts, ClockOk st.epoch t)
+    (hw : InWidth nb nal st (ts.map (fun t => hardNow c st.epoch (accWord c.nowAcc t)))) :
+    ∀ p ∈ List.zip ts (hardRun c nb nal st ts), p.1.ms - st.epoch.toInt ≤ (idFields p.2 nb nal).1.toInt := by
+  intro p hp
+  rw [hardRun_eq_coreRun] at hp
+  have hz := hard_ts_ge_now hl nal _ st wf hw
+  have hmem : (hardNow c st.epoch (accWord c.nowAcc p.1), p.2) ∈
+      List.zip (ts.map (fun t => hardNow c st.epoch (accWord c.nowAcc t)))
+        (coreRun nb nal st (ts.map (fun t => hardNow c st.epoch (accWord c.nowAcc t)))) := by
+    rw [List.zip_map_left]
+    exact List.mem_map.2 ⟨p, hp, rfl⟩
+  have := hz _ hmem
+  rw [← hardNow_milli hc (hok p.1 (List.of_mem_zip hp).1)]
+  exact this
+
+/-- `NewNode` with the repaired accessor stores the configured epoch -/
+theorem nodeEpoch_milli {c : Cfg} (hc : Proved c) (epochG : BitVec 64) : nodeEpoch c epochG = epochG := by
+  unfold nodeEpoch; rw [hc.2]; simp only [accMs, accWord, BitVec.ofInt_toInt]
+
+/-- a node built from a non-negative id that carries its own node number starts exactly at that id -/
+theorem newNode_seed {c : Cfg} {nb : BitVec 8} (hl : LayoutOk nb) (nal : Bool) {epochG node min : BitVec 64} {st : HState}
+    (hnew : newNode c nb nal epochG node min = some st) (hmin : 0 ≤ min.toInt)
+    (hnode : (idFields min nb nal).2.1 = node) :
+    WF nb st ∧ stVal nb nal st = min.toNat ∧ st.node = node := by
+  have hlt := toNat_lt_of_toInt_nonneg hmin
+  obtain ⟨r1, r2, r3⟩ := idFields_ranges hl nal hlt
+  unfold newNode at hnew
+  split at hnew
+  · cases hnew
+  · cases hnew
+    refine ⟨⟨r1, by rw [← hnode]; exact r2, r3⟩, ?_, rfl⟩
+    unfold stVal
+    simp only
+    rw [← hnode, ← join_toNat hl nal r1 r2 r3, join_idFields hl nal hlt]
+
+/-- **restart**: a wall-clock node restarted with the last id it issued (any non-negative id carrying its node
+    number) continues strictly above that id, whatever the clock does afterwards -/
+theorem hard_restart_above {c : Cfg} {nb : BitVec 8} (hl : LayoutOk nb) (nal : Bool) {epochG node min : BitVec 64} {st : HState}
+    (hnew : newNode c nb nal epochG node min = some st) (hmin : 0 ≤ min.toInt)
+    (hnode : (idFields min nb nal).2.1 = node) (nows : List (BitVec 64)) (hw : InWidth nb nal st nows) :
+    ∀ id ∈ coreRun nb nal st nows, min.toInt < id.toInt := by
+  obtain ⟨wf, hv, _⟩ := newNode_seed hl nal hnew hmin hnode
+  intro id hmem
+  have := core_run_above hl nal nows st wf hw id hmem
+  exact toInt_lt_of_toNat_lt this.2.1 (by rw [← hv]; exact this.1)
+
+/-- `NewNode` accepts exactly the node numbers of the layout -/
+theorem newNode_isSome_iff (c : Cfg) {nb : BitVec 8} (hl : LayoutOk nb) (nal : Bool) (epochG node min : BitVec 64) :
+    (newNode c nb nal epochG node min).isSome ↔ (0 ≤ node.toInt ∧ node.toInt < 2 ^ nb.toNat) := by
+  unfold newNode
+  have e8 : ((1#64 <<< 8) - 1#64).toInt = 255 := by decide
+  have e9 : ((1#64 <<< 9) - 1#64).toInt = 511 := by decide
+  have e10 : ((1#64 <<< 10) - 1#64).toInt = 1023 := by decide
+  have z : (0#64).toInt = 0 := by decide
+  rcases hl with rfl | rfl | rfl <;>
+    simp only [Bool.or_eq_true, BitVec.slt_iff_toInt_lt, e8, e9, e10, z, BitVec.toNat_ofNat, Nat.reduceMod, Nat.reducePow] <;>
+    split <;> simp <;> omega
+
+/-! ### UnixNanoID -/
+
+/-- the counter never sits at MaxInt64 when a call starts (there `current++` wraps to MinInt64) -/
+def NanoBelowMax : BitVec 64 → List (BitVec 64) → Prop
+  | _, [] => True
+  | cur, ts :: rest => cur.toInt < 2 ^ 63 - 1 ∧ NanoBelowMax (nanoGen ts cur).2 rest
+
+instance : ∀ (cur : BitVec 64) (tss : List (BitVec 64)), Decidable (NanoBelowMax cur tss)
+  | _, [] => isTrue trivial
+  | cur, ts :: rest =>
+    have := instDecidableNanoBelowMax (nanoGen ts cur).2 rest
+    by unfold NanoBelowMax; exact inferInstance
+
+theorem nano_run_above : ∀ (tss : List (BitVec 64)) (cur : BitVec 64), NanoBelowMax cur tss →
+    ∀ id ∈ nanoRun cur tss, cur.toInt < id.toInt
+  | [], _, _ => by simp [nanoRun]
+  | ts :: rest, cur, h => by
+    obtain ⟨h1, h2, _⟩ := nanoGen_step ts cur h.1
+    intro id hmem
+    simp only [nanoRun, List.mem_cons] at hmem
+    rcases hmem with rfl | hmem
+    · exact h1
+    · have := nano_run_above rest _ h.2 id hmem
+      rw [h2] at this; omega
+
+/-- **unix-nano generator**: strictly increasing for every sequence of supplied timestamps (any order, repeated,
+    far future), below MaxInt64 -/
+theorem nano_strictly_increasing : ∀ (tss : List (BitVec 64)) (cur : BitVec 64), NanoBelowMax cur tss →
+    (nanoRun cur tss).Pairwise (fun a b => a.toInt < b.toInt)
+  | [], _, _ => by simp [nanoRun]
+  | ts :: rest, cur, h => by
+    obtain ⟨_, h2, _⟩ := nanoGen_step ts cur h.1
+    simp only [nanoRun, List.pairwise_cons]
+    refine ⟨fun id' hmem => ?_, nano_strictly_increasing rest _ h.2⟩
+    have := nano_run_above rest _ h.2 id' hmem
+    rw [h2] at this; exact this
+
+/-- each id is at least the timestamp it was requested with -/
+theorem nano_ge_ts : ∀ (tss : List (BitVec 64)) (cur : BitVec 64), NanoBelowMax cur tss →
+    ∀ p ∈ List.zip tss (nanoRun cur tss), p.1.toInt ≤ p.2.toInt
+  | [], _, _ => by simp [nanoRun]
+  | ts :: rest, cur, h => by
+    obtain ⟨_, _, h3⟩ := nanoGen_step ts cur h.1
+    intro p hmem
+    simp only [nanoRun, List.zip_cons_cons, List.mem_cons] at hmem
+    rcases hmem with rfl | hmem
+    · exact h3
+    · exact nano_ge_ts rest _ h.2 p hmem
+
+/-- at MaxInt64 the counter wraps — the boundary `NanoBelowMax` excludes -/
+theorem witness_nano_wraps_at_max :
+    (nanoGen 0#64 9223372036854775807#64).1.toInt = -9223372036854775808 := by decide
+
+/-! ### MonoNode -/
+
+/-- the readings are those of a clock that never runs backwards (each reading is at or after the time the node
+    last used; the reading that ends the spin loop is past it), and the time stays inside the width -/
+def MonoOk (nb : BitVec 8) (nal : Bool) : MState → List (BitVec 64 × BitVec 64) → Prop
+  | _, [] => True
+  | st, r :: rs => st.time.toInt ≤ r.1.toInt ∧
+    match monoGen nb nal st r.1 r.2 with
+    | none => False
+    | some (st', _) => st'.time.toNat < 2 ^ tsWidth nb ∧ MonoOk nb nal st' rs
+
+instance instDecMonoOk (nb : BitVec 8) (nal : Bool) :
+    ∀ (st : MState) (rs : List (BitVec 64 × BitVec 64)), Decidable (MonoOk nb nal st rs)
+  | _, [] => isTrue trivial
+  | st, r :: rs =>
+    match h : monoGen nb nal st r.1 r.2 with
+    | none => isFalse (by simp only [MonoOk, h]; exact fun x => x.2)
+    | some (st', _) =>
+      have := instDecMonoOk nb nal st' rs
+      decidable_of_iff (st.time.toInt ≤ r.1.toInt ∧ st'.time.toNat < 2 ^ tsWidth nb ∧ MonoOk nb nal st' rs)
+        (by simp only [MonoOk, h])
+
+theorem mono_run_above {nb : BitVec 8} (hl : LayoutOk nb) (nal : Bool) :
+    ∀ (rs : List (BitVec 64 × BitVec 64)) (st : MState), MWF nb st → MonoOk nb nal st rs →
+      ∃ ids, monoRun nb nal st rs = some ids ∧ ids.Pairwise (fun a b => a.toInt < b.toInt) ∧
+        ∀ id ∈ ids, mVal nb nal st < id.toNat ∧ id.toNat < 2 ^ 63 ∧ (idFields id nb nal).2.1 = st.node
+  | [], _, _, _ => ⟨[], rfl, List.Pairwise.nil, by simp⟩
+  | r :: rs, st, wf, hok => by
+    obtain ⟨hmono, hm⟩ := hok
+    cases hg : monoGen nb nal st r.1 r.2 with
+    | none => rw [hg] at hm; exact hm.elim
+    | some q =>
+      obtain ⟨st', id⟩ := q
+      rw [hg] at hm
+      obtain ⟨hpost, hrest⟩ := hm
+      obtain ⟨wf', hid, hlt, hnode, hj⟩ := monoGen_step hl nal wf hmono hg hpost
+      obtain ⟨ids, hrun, hpw, habove⟩ := mono_run_above hl nal rs st' wf' hrest
+      have hidlt : id.toNat < 2 ^ 63 := by rw [hj]; exact join_lt hl nal wf'.time wf.node wf'.step
+      refine ⟨id :: ids, by simp only [monoRun, hg, hrun, Option.map_some], ?_, ?_⟩
+      · rw [List.pairwise_cons]
+        exact ⟨fun id' hm' => toInt_lt_of_toNat_lt (habove id' hm').2.1 (by rw [hid]; exact (habove id' hm').1), hpw⟩
+      · intro id' hm'
+        rw [List.mem_cons] at hm'
+        rcases hm' with rfl | hm'
+        · exact ⟨by rw [hid]; exact hlt, hidlt, by rw [hj, idFields_join hl nal wf'.time wf.node wf'.step]⟩
+        · have := habove id' hm'
+          exact ⟨Nat.lt_trans hlt this.1, this.2.1, by rw [this.2.2, hnode]⟩
+
+/-- **monotonic node**: under readings of a clock that never runs backwards the ids are strictly increasing
+    (also across the wrap-and-spin branch) and carry the node number -/
+theorem mono_strictly_increasing {nb : BitVec 8} (hl : LayoutOk nb) (nal : Bool)
+    (rs : List (BitVec 64 × BitVec 64)) (st : MState) (wf : MWF nb st) (hok : MonoOk nb nal st rs) :
+    ∃ ids, monoRun nb nal st rs = some ids ∧ ids.Pairwise (fun a b => a.toInt < b.toInt) ∧ ids.Nodup ∧
+      ∀ id ∈ ids, (idFields id nb nal).2.1 = st.node := by
+  obtain ⟨ids, h1, h2, h3⟩ := mono_run_above hl nal rs st wf hok
+  refine ⟨ids, h1, h2, ?_, fun id h => (h3 id h).2.2⟩
+  rw [List.nodup_iff_pairwise_ne]
+  exact h2.imp (fun {a b} h e => by rw [e] at h; exact Int.lt_irrefl _ h)
+
+/-- MonoNode is *not* monotone when a reading decreases: that Go's monotonic clock never does is an assumption
+    of the property for this generator, not something the code enforces -/
+theorem witness_mono_decreasing_reading :
+    monoRun 10#8 false ⟨0#64, 1#64, 0#64⟩ [(5#64, 0#64), (3#64, 0#64)] = some [20975616#64, 12587008#64] := by decide
+
+/-! ### non-vacuity -/
+
+/-- a state in the middle of a millisecond, Node1024 layout, and a clock that stalls, steps back and jumps -/
+example : WF 10#8 ⟨1609430400000#64, 90569600000#64, 1023#64, 4094#64⟩ := ⟨by decide, by decide, by decide⟩
+example : InWidth 10#8 false ⟨1609430400000#64, 90569600000#64, 1023#64, 4094#64⟩
+    [90569600000#64, 90569600000#64, 90569599000#64, 0#64, 2199023255551#64] := by decide
+example : coreRun 10#8 false ⟨1609430400000#64, 90569600000#64, 1023#64, 4094#64⟩
+      [90569600000#64, 90569600000#64, 90569599000#64, 0#64, 2199023255551#64] =
+    [379876435562594303#64, 379876435566784512#64, 379876435566784513#64, 379876435566784514#64, 9223372036854771712#64] := by decide
+example : LayoutOk 8#8 ∧ LayoutOk 9#8 ∧ LayoutOk 10#8 := by decide
+example : Proved ⟨.unixMilli, .unixMilli⟩ := by decide
+example : NanoBelowMax 100#64 [50#64, 100#64, 9223372036854775806#64, 0#64] := by decide
+example : nanoRun 100#64 [50#64, 100#64, 103#64, 103#64] = [101#64, 102#64, 103#64, 104#64] := by decide
+example : MWF 10#8 ⟨7#64, 1#64, 4095#64⟩ := ⟨by decide, by decide, by decide⟩
+/-- a burst across the step-counter wrap: the reading still says 7, the loop leaves at 8 -/
+example : MonoOk 10#8 false ⟨7#64, 1#64, 4095#64⟩ [(7#64, 8#64), (8#64, 0#64), (9#64, 0#64)] := by decide
+
+/-! ### the accessor found on today's tree: negation by witness (F06) -/
+
+/-- `UnixNano()/MsDivNs`: Node256 layout (43-bit timestamp, good until 2299), fresh node 3, the clock reads
+    2270-01-01T00:00:00Z — inside the width — and the id comes out stamped with the epoch (timestamp 0) -/
 theorem witness_unixNano_stamp_before_clock :
-    (hardGen ⟨.unixNano, .unixNano⟩ 8#8 false ⟨1609430400000#64, 0#64, 3#64, 0#64⟩ ⟨9467020800000, 0⟩).2 = 12289#64 := by decide
+    (hardGen ⟨.unixNano, .unixNano⟩ 8#8 false ⟨1609430400000#64, 0#64, 3#64, 0#64⟩ ⟨9467020800000, 0⟩).2 = 12289#64
+    ∧ idFields 12289#64 8#8 false = (0#64, 3#64, 1#64) := by decide
+
+/-- so `hard_ts_ge_clock` is false of that configuration -/
+theorem not_ts_ge_clock_unixNano :
+    ¬ (∀ (ts : List Clock) (st : HState), WF 8#8 st → (∀ t ∈ ts, ClockOk st.epoch t) →
+        InWidth 8#8 false st (ts.map (fun t => hardNow ⟨.unixNano, .unixNano⟩ st.epoch (accWord .unixNano t))) →
+        ∀ p ∈ List.zip ts (hardRun ⟨.unixNano, .unixNano⟩ 8#8 false st ts),
+          p.1.ms - st.epoch.toInt ≤ (idFields p.2 8#8 false).1.toInt) := by
+  intro h
+  have := h [⟨9467020800000, 0⟩] ⟨1609430400000#64, 0#64, 3#64, 0#64⟩ ⟨by decide, by decide, by decide⟩
+    (by intro t ht; simp only [List.mem_singleton] at ht; subst ht; decide) (by decide)
+    (⟨9467020800000, 0⟩, 12289#64) (by decide)
+  revert this; decide
+
+/-- `NewNode`'s conversion of `_epoch` through `UnixNano`: an epoch of 2300-01-01 is stored as a different number -/
+theorem witness_unixNano_epoch :
+    nodeEpoch ⟨.unixMilli, .unixNano⟩ 10413792000000#64 ≠ 10413792000000#64 := by decide
 
 end Nv.C06
